@@ -77,7 +77,8 @@ AtLeastAsRecent(myI, myT, tI, tT) ==
   IF "M_LogCheckIndexOnly" \in Dev THEN tT > myT \/ tI >= myI
   ELSE IF "M_LogCheckTermOnly" \in Dev THEN tT >= myT
   ELSE tT > myT \/ (tT = myT /\ tI >= myI)
-IsMajority(num, total) == num > (total \div 2)
+\* (model mutant M_HalfIsMajority: half of an even number of voters is taken for a majority)
+IsMajority(num, total) == IF "M_HalfIsMajority" \in Dev THEN 2 * num >= total ELSE num > (total \div 2)
 
 (***************************************************************************)
 (* Vote request  q = [from, t, li, lt]                                      *)
@@ -166,7 +167,11 @@ FilterAppend(log, a) ==
                       /\ overlap[Len(overlap)].t = LastTerm(log)
     IN IF safe THEN log \o tail
        ELSE LET D == {j \in 1..Len(a.ents) :
-                        a.ents[j].i > last \/ SegTermAt(log, a.ents[j].i) # a.ents[j].t}
+                        a.ents[j].i > last \/
+                        \* (model mutant M_KeepHigherTermStaleEntry: a held entry only conflicts if its term is lower)
+                        (IF "M_KeepHigherTermStaleEntry" \in Dev
+                         THEN SegTermAt(log, a.ents[j].i) = 0 \/ SegTermAt(log, a.ents[j].i) < a.ents[j].t
+                         ELSE SegTermAt(log, a.ents[j].i) # a.ents[j].t)}
             IN IF D = {} THEN log
                ELSE LET pos == CHOOSE m \in D : \A o \in D : m <= o
                         di  == a.ents[pos].i
